@@ -85,12 +85,12 @@ fn probes(g: &CongestionController) -> (usize, usize, usize) {
 }
 
 const CWND0: usize = 12_000;
-const RTT0: Duration = Duration::from_millis(33);
 
-/// Scenario: `bif` bytes have been sent and are all unacknowledged (bytes_in_flight == bif), the
-/// last window's worth of them emptied the pacer's bucket; one smoothed RTT later, still without
-/// any acknowledgement, the path asks for its send quota (Transport::send_quota, called by
-/// qconnection's burst loop before every packet).
+/// Scenario: `bif` bytes are in flight, none acknowledged (bytes_in_flight == bif), and the pacer's
+/// bucket is full -- the state 26.4 ms after any burst (the bucket of 12000 bytes refills at
+/// 1.25 cwnd / srtt = 454545 B/s), i.e. BEFORE the first acknowledgement can arrive (srtt 33 ms).
+/// The path asks for its send quota (Transport::send_quota, called by qconnection's burst loop
+/// before every packet). bytes_in_flight is set through the algorithm's own accounting entry point.
 fn quota_step(window_clause: bool) {
     let now = h_start_concrete();
     let (cc, _hs) = new_cc(kani::any());
@@ -100,11 +100,6 @@ fn quota_step(window_clause: bool) {
         let mut g = cc.0.lock().unwrap();
         assert!(g.algorithm.congestion_window() == CWND0);
         g.algorithm.on_packet_sent_cc(&SentPacket::new(0, now, true, true, bif));
-        g.pacer.on_sent(CWND0);
-    }
-    h_advance(RTT0);
-    if !is_symbolic_run() {
-        std::thread::sleep(Duration::from_millis(40)); // native replay: let the real clock pass one RTT
     }
     let q = cc.send_quota();
     let cwnd = cc.0.lock().unwrap().algorithm.congestion_window();
@@ -116,8 +111,8 @@ fn quota_step(window_clause: bool) {
             Err(s) => assert!(s == Signals::CONGESTION),
         }
     } else {
-        // what the code computes: the token bucket only -- rate = 1.25 cwnd / srtt = 454545 B/s,
-        // 33 ms refill 15000 tokens, capped at the bucket capacity max(cwnd * 10ms / srtt, 10 mtu) = 12000
+        // what the code computes: the token bucket only, capped at the bucket capacity
+        // max(cwnd * 10ms / srtt, 10 mtu) = 12000
         assert!(matches!(q, Ok(12_000)), "quota = min(tokens + rate * elapsed, capacity), whatever is in flight");
     }
     kani::cover!(bif >= CWND0, "a full window (or more) already in flight");
